@@ -151,6 +151,22 @@ pub fn run(ctx: &Ctx) -> Report {
                     J::obj(vec![("type", J::s(&t.name)), ("alg_name", J::s(&name)), ("family", J::A(t.name_family.iter().map(|s| J::s(*s)).collect())), ("params", J::A(t.name_params.iter().map(J::s).collect()))]),
                 );
             }
+            // a name may be the type's own identifier or its family's combined type; it must not be
+            // the identifier of some other type (e.g. a decrypt-only type calling itself "...Enc")
+            let nn = norm(&name);
+            let own = norm(&t.ident);
+            let combined = own.trim_end_matches("enc").trim_end_matches("dec").to_string();
+            if nn != own && nn != combined {
+                if let Some((other, _)) = all_idents.iter().find(|(n, id)| *id == nn && n.trim_start_matches("S:").split("::").next() == t.name.trim_start_matches("S:").split("::").next()) {
+                    rep.violation(
+                        format!("names|{}|AlgorithmName \"{}\" is the name of another type ({})", t.name, name, other.trim_start_matches("S:")),
+                        J::obj(vec![("type", J::s(&t.name)), ("alg_name", J::s(&name)), ("other", J::s(other))]),
+                    );
+                }
+            }
+            if name.starts_with("<<") {
+                rep.violation(format!("names|{}|write_alg_name panicked", t.name), J::obj(vec![("type", J::s(&t.name)), ("alg_name", J::s(&name))]));
+            }
             let group = format!("{}|{:?}|{:?}", t.krate, t.name_family, t.name_params);
             if let Some((g0, t0)) = alg_names.get(&name) {
                 if *g0 != group {
